@@ -96,7 +96,9 @@ ExpectileFree(y, wts, lam, p) == ExpFree(y, wts, lam, p, 1, Zeros(Len(y)), Zeros
 ----------------------------------------------------------------------------
 (* CONTRACT C03: fixed lambda.  c: y, nd, lam, out, and for the asymmetric   *)
 (* kernel p and hints.  Result <<kind, clause, detail>>.                     *)
-FixedVerdict(y, nd, lam, out, hasP, p, hints) ==
+\* hinted: the kernel's source was observed (its solver calls recorded); then an
+\* empty hint list means it made no reweighting pass at all.
+FixedVerdict(y, nd, lam, out, hasP, p, hints, hinted) ==
     LET wts == Weights(y, nd, "full")
         nv  == NValid(y, nd, "full")
     IN  IF Len(out) # Len(y) THEN <<"REJECT", "Length", "">>
@@ -111,7 +113,8 @@ FixedVerdict(y, nd, lam, out, hasP, p, hints) ==
                  ELSE <<"REJECT", "RoundedPLS", ToString(FirstBad(out, z))>>
              ELSE
                  LET r == IF hints = <<>> THEN ExpectileFree(yc, wts, lam, p) ELSE Expectile(yc, wts, lam, p, hints) IN
-                 IF r[1] = "tie" THEN <<"SKIP", "envelope-tie-without-hints", "">>
+                 IF hinted /\ hints = <<>> THEN <<"REJECT", "NoReweightingPass", "">>
+                 ELSE IF r[1] = "tie" THEN <<"SKIP", "envelope-tie-without-hints", "">>
                  ELSE IF r[1] = "bad" THEN <<"REJECT", r[2], "">>
                  ELSE IF ~InInt16(r[3]) THEN <<"SKIP", "curve-leaves-int16", "">>
                  ELSE IF BandOK(out, r[3]) THEN <<"ACCEPT", "", "">>
